@@ -119,8 +119,12 @@ func runC06(raw json.RawMessage, w *Writer) {
 	instSec, instJ := int64(c.Inst0[0]), int64(c.Inst0[1])
 	okClock := rtp.VerifSetPacketizerClock(pz, func() time.Time { return time.Unix(instSec, instJ*1953125) })
 	okTs := rtp.VerifSetPacketizerTimestamp(pz, u32of(c.Ts0))
-	if !okClock || !okTs {
-		fatal("C06: verif accessors do not recognise the packetizer")
+	if _, okRead := rtp.VerifPacketizerTimestamp(pz); !okClock || !okTs || !okRead {
+		// the verification accessors do not fit this implementation: the case cannot be positioned
+		w.Emit(Ev{"ev": "reset", "class": c.Class, "mtu": c.Mtu, "pt": c.Pt, "ssrc": c.Ssrc, "seqstart": c.SeqStart, "ts0": c.Ts0, "abs0": c.Abs0,
+			"payloader": c.Payloader, "inst0": c.Inst0})
+		w.Emit(Ev{"ev": "unavailable"})
+		return
 	}
 	if c.Abs0 != 0 {
 		pz.EnableAbsSendTime(c.Abs0)
